@@ -238,7 +238,16 @@ def _validated_before_manager(ctx: Ctx, kwargs: Dict[str, bool]) -> Set[str]:
             interp.call_unit(dag_run, [TOP], {}, dag)
         except _Stop:
             reached.append(True)
-        return tuple(done)
+        first = tuple(done)
+        # the same DAG object is run again (a chart is run once per request): whatever the first run left on it must not
+        # switch the validation off
+        del done[:]
+        try:
+            interp.call_unit(dag_run, [TOP], {}, dag)
+        except _Stop:
+            pass
+        second = tuple(done)
+        return tuple(k for k in first if k in second)
 
     first = True
     for o in enumerate_outcomes(run2):
